@@ -509,6 +509,8 @@ fn probe_wall_against_severity(ctx: &RunCtx, vals: &[Val], walls: &[u64]) {
 
 struct Rep {
     st: LWWMembershipState,
+    /// the mirror: same batches (each in reverse order), same local events
+    st2: LWWMembershipState,
     tainted: bool,
     /// distinct update values received so far (only meaningful while untainted)
     recv: BTreeSet<Val>,
@@ -551,6 +553,7 @@ fn run_a(case: &Case, ctx: &Arc<RunCtx>) -> RunOut {
     let mut reps: Vec<Rep> = (0..nrep)
         .map(|_| Rep {
             st: LWWMembershipState::new(),
+            st2: LWWMembershipState::new(),
             tainted: false,
             recv: BTreeSet::new(),
             first: BTreeMap::new(),
@@ -563,6 +566,7 @@ fn run_a(case: &Case, ctx: &Arc<RunCtx>) -> RunOut {
     let mut seen: BTreeMap<Vec<Val>, (Vec<Val>, usize, usize, String)> = BTreeMap::new();
     let mut stamp = 0u64;
     let mut comparisons = 0u64;
+    let mut mirror_cmp = 0u64;
     let mut local_applied = 0u64;
     let mut ts_obs = false;
 
@@ -602,6 +606,9 @@ fn run_a(case: &Case, ctx: &Arc<RunCtx>) -> RunOut {
                     reps[r].first.entry(*i).or_insert(stamp);
                 }
                 let changed = reps[r].st.merge(&batch);
+                let mut rb = batch.clone();
+                rb.reverse();
+                let _ = reps[r].st2.merge(&rb);
                 let bv: Vec<Val> = idx.iter().map(|i| vals[*i]).collect();
                 let line = format!("merge{}", show(&bv));
                 ctx.event(&format!("s{sn} r{r} {line} changed={} -> {} L={}", changed.len(), show(&view_of(reps[r].st.all_states())), reps[r].st.lamport_time()));
@@ -623,6 +630,10 @@ fn run_a(case: &Case, ctx: &Arc<RunCtx>) -> RunOut {
                 let bv = view_of(states.iter());
                 reps[t].st.sync_time(sender_time);
                 let changed = reps[t].st.merge(&states);
+                let mut s2 = states.clone();
+                s2.reverse();
+                reps[t].st2.sync_time(sender_time);
+                let _ = reps[t].st2.merge(&s2);
                 let line = format!("sync-from-r{f}(time {sender_time}){}", show(&bv));
                 ctx.event(&format!("s{sn} r{t} {line} changed={} -> {} L={}", changed.len(), show(&view_of(reps[t].st.all_states())), reps[t].st.lamport_time()));
                 ctx.fp("Y");
@@ -642,6 +653,7 @@ fn run_a(case: &Case, ctx: &Arc<RunCtx>) -> RunOut {
                 let cur = reps[r].st.get(&name(m)).map(|s| s.incarnation);
                 let inc = inc.map(u64::from).or(cur).unwrap_or(0);
                 let ok = reps[r].st.suspect(&name(m), inc);
+                let _ = reps[r].st2.suspect(&name(m), inc);
                 let line = format!("suspect(n{m},inc{inc})={ok}");
                 ctx.event(&format!("s{sn} r{r} {line} -> {}", show(&view_of(reps[r].st.all_states()))));
                 ctx.fp(if ok { "S1" } else { "S0" });
@@ -656,6 +668,7 @@ fn run_a(case: &Case, ctx: &Arc<RunCtx>) -> RunOut {
             Step::Fail { r, m } => {
                 let (r, m) = (*r as usize % nrep, *m as usize % members);
                 let ok = reps[r].st.fail(&name(m));
+                let _ = reps[r].st2.fail(&name(m));
                 let line = format!("fail(n{m})={ok}");
                 ctx.event(&format!("s{sn} r{r} {line} -> {}", show(&view_of(reps[r].st.all_states()))));
                 ctx.fp(if ok { "F1" } else { "F0" });
@@ -673,6 +686,7 @@ fn run_a(case: &Case, ctx: &Arc<RunCtx>) -> RunOut {
                 // the Alive{m, inc} message this models was sent by m: m announced inc
                 announced[m] = announced[m].max(inc);
                 let ok = reps[r].st.refute(&name(m), inc);
+                let _ = reps[r].st2.refute(&name(m), inc);
                 let line = format!("refute(n{m},inc{inc})={ok}");
                 ctx.event(&format!("s{sn} r{r} {line} -> {}", show(&view_of(reps[r].st.all_states()))));
                 ctx.fp(if ok { "R1" } else { "R0" });
@@ -687,6 +701,7 @@ fn run_a(case: &Case, ctx: &Arc<RunCtx>) -> RunOut {
             Step::MarkHealthy { r, m } => {
                 let (r, m) = (*r as usize % nrep, *m as usize % members);
                 let ok = reps[r].st.mark_healthy(&name(m));
+                let _ = reps[r].st2.mark_healthy(&name(m));
                 let line = format!("mark_healthy(n{m})={ok}");
                 ctx.event(&format!("s{sn} r{r} {line} -> {}", show(&view_of(reps[r].st.all_states()))));
                 ctx.fp(if ok { "H1" } else { "H0" });
@@ -710,6 +725,7 @@ fn run_a(case: &Case, ctx: &Arc<RunCtx>) -> RunOut {
                 }
                 let inc = announced[r];
                 let _ = reps[r].st.update_local(name(r), NodeHealth::Healthy, inc);
+                let _ = reps[r].st2.update_local(name(r), NodeHealth::Healthy, inc);
                 let line = format!("update_local(n{r},Healthy,inc{inc})");
                 ctx.event(&format!("s{sn} r{r} {line} -> {}", show(&view_of(reps[r].st.all_states()))));
                 ctx.fp("U");
@@ -734,6 +750,31 @@ fn run_a(case: &Case, ctx: &Arc<RunCtx>) -> RunOut {
             let h = move || hist.join("; ");
             if let Some(v) = check_backwards("A", op, r, &mut rep.mono, &view, lam, &announced, &h) {
                 out.violation = Some(v);
+                out.nontrivial = true;
+                return out;
+            }
+        }
+
+        // clause (1) between the replica and its mirror: the mirror got the same updates in
+        // the same batches and the same local events at the same points; only the order
+        // INSIDE each batch is the other way round ("regardless of the order ... in which
+        // the updates arrived", with local events interleaved as the quantifier says)
+        {
+            let v2 = view_of(reps[r].st2.all_states());
+            let hi1: Vec<(u8, u8, u64)> = view.iter().map(|x| (x.0, x.1, x.2)).collect();
+            let hi2: Vec<(u8, u8, u64)> = v2.iter().map(|x| (x.0, x.1, x.2)).collect();
+            mirror_cmp += 1;
+            if hi1 != hi2 {
+                let what = if hi1.iter().map(|x| (x.0, x.2)).eq(hi2.iter().map(|x| (x.0, x.2))) { "health" } else { "incarnation" };
+                out.violation = Some(Violation {
+                    class: format!("c1-convergence-{what}-differs:batch-order"),
+                    detail: format!(
+                        "after step {sn} replica r{r} holds {} but a replica given the same batches (each in reverse order) and the same local events holds {}; history: {}",
+                        show(&view),
+                        show(&v2),
+                        reps[r].hist.join("; ")
+                    ),
+                });
                 out.nontrivial = true;
                 return out;
             }
@@ -803,7 +844,7 @@ fn run_a(case: &Case, ctx: &Arc<RunCtx>) -> RunOut {
     if comparisons > 0 {
         ctx.probe("same_set_compared");
     }
-    out.inner_evals = comparisons;
+    out.inner_evals = comparisons + mirror_cmp;
     out.nontrivial = match case.mode {
         Mode::Local => local_applied > 0,
         _ => comparisons > 0,
